@@ -498,7 +498,7 @@ def kinds(al, out=None, depth=1):
 
 # ------------------------------------------------------------------ cases
 def gen_cases(tier: str, seed: int) -> List[dict]:
-    n = 3000 if tier == "quick" else 20000
+    n = 3000 if tier == "quick" else 12000
     rng = core.Rng(seed).fork(11)
     out = []
     for i in range(n):
@@ -539,7 +539,7 @@ def run(tier: str, seed: int, replay=None) -> int:
     rep.assume = ["objects' == is an equivalence that respects identity (checked on every generated world)",
                   "attribute values conform to the declared field types (no None, no foreign classes); checked per case by typed_b",
                   "the domain has no duplicate element (let() de-duplicates by identity)"]
-    rep.rule = ("random worlds (2-3 knobs, 2-4 boxes, 2-5 units, 3-6 racks; value-equal twins of a box 30% / unit 40% / rack 50%), root type "
+    rep.rule = ("3000 (quick) / 12000 (thorough) cases after the corpus: random worlds (2-3 knobs, 2-4 boxes, 2-5 units, 3-6 racks; value-equal twins of a box 30% / unit 40% / rack 50%), root type "
                 "Rack/WideRack/Unit, random patterns of depth <= 3 with 0-3 keywords per level in random order: scalar literal, object "
                 "literal, literal list, match_any/match_all over value lists, nested match/match_any with declared / narrower / wider / "
                 "missing / unrelated type; 35% of the patterns may leave F11 (empty lists, in_ on scalars, empty nested matches); "
